@@ -228,7 +228,69 @@ static void lq_unblock_scenario(int limit, int cons_kind) {
     }
 }
 
+// an observer thread asks size() / empty() while a producer and a consumer work: the answers are values the queue really had
+static void q_observer_scenario(int cons_kind, bool limited) {
+    int64_t *s = vrt_scratch();
+    {
+        auto q = std::make_unique<cocls::queue<int>>();
+        auto lq = std::make_unique<cocls::limited_queue<int>>(2u);
+        vstd::thread pt([&] {
+            vrt_label("prod0");
+            for (int j = 1; j <= 2; j++) {
+                if (limited)
+                    lq->push(j).wait();
+                else
+                    q->push(j);
+            }
+        });
+        vstd::thread ct([&] {
+            vrt_label("cons0");
+            if (cons_kind == CK_CORO) {
+                if (limited)
+                    [](cocls::limited_queue<int> &q) -> cocls::async<void> {
+                        int v = co_await q.pop();
+                        got(0, v);
+                        vrt_scratch()[50] = 1;
+                    }(*lq)
+                                                            .detach();
+                else
+                    [](cocls::queue<int> &q) -> cocls::async<void> {
+                        int v = co_await q.pop();
+                        got(0, v);
+                        vrt_scratch()[50] = 1;
+                    }(*q)
+                                                    .detach();
+            } else {
+                int v = limited ? lq->pop().wait() : q->pop().wait();
+                got(0, v);
+                vrt_scratch()[50] = 1;
+            }
+        });
+        vstd::thread ot([&] {
+            vrt_label("observer");
+            for (int k = 0; k < 2; k++) {
+                std::size_t sz = limited ? lq->size() : q->size();
+                bool em = limited ? lq->empty() : q->empty();
+                (void)em;
+                if (sz > 2) vrt_fail("q/size", "size() answered %zu: the queue never held more than two items", sz);
+            }
+        });
+        pt.join();
+        ct.join();
+        ot.join();
+        vrt_label("main-wait-consumer-done");
+        while (!s[50]) vrt_yield();
+        vrt_label("main");
+        VRT_CHECK(s[S_CNT] == 1 && s[S_VAL] == 1, "q/per-producer-order", "consumer received %ld (count %ld), expected item 1", (long)s[S_VAL], (long)s[S_CNT]);
+        std::size_t left = limited ? lq->size() : q->size();
+        VRT_CHECK(left == 1, "q/item-lost", "one of two items popped, size()=%zu", left);
+        vrt_outcome("ok");
+    }
+}
+
 VRT_REGISTER(reg_queue) {
+    for (int lim = 0; lim < 2; lim++)
+        for (int ck = 0; ck < 2; ck++) vrt::add(std::string(lim ? "lq" : "q") + "_observer_" + (ck ? "coro" : "block"), [=] { q_observer_scenario(ck, lim != 0); });
     for (int limit = 1; limit <= 2; limit++)
         for (int ck = 0; ck < 2; ck++) vrt::add("lq_l" + std::to_string(limit) + "_unblock_" + (ck ? "coro" : "block"), [=] { lq_unblock_scenario(limit, ck); });
     for (int np = 1; np <= 2; np++)
